@@ -35,6 +35,7 @@ THEOREMS = [
     "IrVerif.Path.C10_load_base_nonempty",
     "IrVerif.Path.C10_load_base_is_model_dir",
     "IrVerif.Path.C10_load_read_safe",
+    "IrVerif.Path.C10_load_all_positions",
     "IrVerif.Path.C10_call_events",
     "IrVerif.Path.C10_call_open_safe",
     "IrVerif.Path.C10_call_result",
